@@ -14,6 +14,7 @@ pub type CrashPointFn = dyn Fn(&str, &Path);
 thread_local! {
     static CRASH_POINT: RefCell<Option<Rc<CrashPointFn>>> = const { RefCell::new(None) };
     static SCHED_YIELDS: std::cell::Cell<u32> = const { std::cell::Cell::new(0) };
+    static SCHED_SLOW: RefCell<Vec<(&'static str, u32)>> = const { RefCell::new(Vec::new()) };
     static WAL_ROTATION_ENTRIES: RefCell<Option<u64>> = const { RefCell::new(None) };
     static TIMESTAMP_SECS: RefCell<Option<u64>> = const { RefCell::new(None) };
 }
@@ -39,11 +40,26 @@ pub fn set_sched_yields(n: u32) {
 }
 
 /// Called by instrumented code between two critical sections; inert unless yields are enabled.
-pub async fn sched_point(_label: &str) {
-    let n = SCHED_YIELDS.with(|c| c.get());
+pub async fn sched_point(label: &str) {
+    let n = SCHED_SLOW
+        .with(|s| s.borrow().iter().find(|(l, _)| *l == label).map(|(_, n)| *n))
+        .unwrap_or_else(|| SCHED_YIELDS.with(|c| c.get()));
     for _ in 0..n {
         tokio::task::yield_now().await;
     }
+}
+
+/// Make one scheduling point (by label) yield `n` times instead of the thread's default: the task that
+/// reaches it stays between its two critical sections while other tasks make progress. `None` clears
+/// all overrides.
+pub fn set_sched_slow_point(point: Option<(&'static str, u32)>) {
+    SCHED_SLOW.with(|s| {
+        let mut s = s.borrow_mut();
+        match point {
+            Some(p) => s.push(p),
+            None => s.clear(),
+        }
+    });
 }
 
 /// Override the number of log entries after which the write-ahead log rotates (current thread).
